@@ -185,6 +185,7 @@ type Item struct {
 	Body  string // assert text or goal text (positive form)
 	Guard string
 	Goal  *Goal
+	Soft    bool   // assumption made for proof convenience (asserted goal, loop invariant): excluded when a concrete execution is evaluated
 	DefName string // definitional equality: DefName = Fact
 	GuardS  string
 	Fact    string
@@ -277,6 +278,15 @@ func (c *Ctx) Assume(guard Term, fact Term) {
 	c.Items = append(c.Items, Item{Kind: 1, Body: f.S, GuardS: guard.S, Fact: fact.S})
 }
 
+// AssumeSoft: like Assume, for facts that were only asserted (goals) or are loop invariants.
+func (c *Ctx) AssumeSoft(guard Term, fact Term) {
+	n := len(c.Items)
+	c.Assume(guard, fact)
+	for i := n; i < len(c.Items); i++ {
+		c.Items[i].Soft = true
+	}
+}
+
 func (c *Ctx) AddGoal(g *Goal, guard, body Term) {
 	g.Guard = guard.S
 	g.Body = body.S
@@ -286,6 +296,8 @@ func (c *Ctx) AddGoal(g *Goal, guard, body Term) {
 }
 
 // Query text for a goal: prelude + all decls/facts before it + negated goal.
+var queryNoSoft bool
+
 func (c *Ctx) Query(g *Goal, getvals []string) string {
 	var b bytes.Buffer
 	b.WriteString("(set-option :produce-models true)\n(set-logic ALL)\n")
@@ -301,6 +313,9 @@ func (c *Ctx) Query(g *Goal, getvals []string) string {
 		case 0:
 			fmt.Fprintf(&b, "(declare-const %s %s)\n", it.Name, it.Sort)
 		case 1:
+			if queryNoSoft && it.Soft {
+				continue
+			}
 			fmt.Fprintf(&b, "(assert %s)\n", it.Body)
 		}
 	}
